@@ -125,6 +125,25 @@ def split_class(groups):
     return groups[1][0]
 
 
+def canon_storage(prog, mfin, sto):
+    """raw slots of every variable, restricted to what the source semantics determines (slots past the live length of a
+    DynArray / Bytes and the tail of a partial last word hold stale data that may legitimately differ)"""
+    out = []
+    for (name, t), v in zip(prog.sto, mfin):
+        exp = H.flat_slots(v, t)
+        got = sto.get(name, [])
+        row = []
+        for e, g in zip(exp, got):
+            if e is None:
+                row.append(None)
+            elif isinstance(e, tuple):
+                row.append(g.to_bytes(32, "big")[:len(e[1])].hex())
+            else:
+                row.append(g)
+        out.append((name, tuple(row)))
+    return out
+
+
 def part_generated(ctx, cfgs):
     t0 = time.time()
     n = 30 if ctx.tier == "quick" else 100
@@ -146,8 +165,9 @@ def part_generated(ctx, cfgs):
                 continue
             res, sto = o
             per[cfg.name] = ([(ok, out.hex(), tuple((tuple(x.hex() for x in t), d.hex()) for t, d in logs)) for ok, out, logs in res],
-                             sorted((k, v) for k, v in sto.items() if k != "$maps"),
-                             [(n_, e_, g_) for n_, _s, e_, g_ in sto.get("$maps", [])])
+                             canon_storage(it["prog"], it["model"][1], sto),
+                             [(n_, e_ if not isinstance(e_, tuple) else e_[1].hex(), g_ if not isinstance(e_, tuple) else g_.to_bytes(32, "big")[:len(e_[1])].hex())
+                              for n_, _s, e_, g_ in sto.get("$maps", [])])
             n_cmp += len(res)
         groups = group_observations(per)
         if len(groups) > 1 and reported < 2:
@@ -551,7 +571,9 @@ def part_corpus(ctx, cfgs):
     skipped = {}
     for job in jobs:
         try:
-            plan, abi = R.make_plan(job["src"], job["helper"], ctx.rng("plan:" + job["name"]), ncalls)
+            # contracts whose behaviour is decided by argument relations get more calls
+            dense = job["name"] in ("corpus/range_narrowing", "corpus/callback_storage", "corpus/callback_transient")
+            plan, abi = R.make_plan(job["src"], job["helper"], ctx.rng("plan:" + job["name"]), ncalls * (4 if dense else 1))
         except Exception as e:
             skipped[job["name"]] = type(e).__name__
             continue
